@@ -746,6 +746,21 @@ def zero_fine(m, seed=0):
     return n
 
 
+def uniform_boxes(m, seed=0, fraction="volFrac"):
+    """Make every third box (at every level) exactly uniform in every field but the last: one value per field and
+    box (an initial state, the inside of a solid body), with the volume fraction - where there is such a field -
+    uniformly 0.0, 0.5 or 1.0 in that box. The per-box extrema of such a box coincide."""
+    rng = np.random.default_rng(seed + 5)
+    n = 0
+    for lv in range(m.nlevels):
+        for bi in range(lv % 3, len(m.data[lv]), 3):
+            a = m.data[lv][bi] = np.array(m.data[lv][bi], dtype=np.float64, order="F", copy=True)
+            for f, name in enumerate(m.names[:-1] if len(m.names) > 1 else m.names):
+                a[..., f] = [0.0, 0.5, 1.0][int(rng.integers(3))] if name == fraction else float(np.round(rng.uniform(0.5, 9.5), 3))
+            n += 1
+    return n
+
+
 def deepen(m, nlevels, seed=0):
     """Extend a single-level model to `nlevels` levels, each finer level being one small box that refines
     the low corner block of the level below (a deep, narrow hierarchy: 11 levels give Level_10, whose
